@@ -12,6 +12,21 @@ import (
 
 // CRunes prints a Go string as the list of its code points (Model/Config.v: str).
 func CRunes(s string) string {
+	if s == "" {
+		return "[]"
+	}
+	// printable ASCII without a double quote: a Coq string literal converted by s2r
+	// (much cheaper for coqc to read than a list of numerals)
+	plain := true
+	for _, r := range s {
+		if r < 32 || r > 126 || r == '"' {
+			plain = false
+			break
+		}
+	}
+	if plain {
+		return "(s2r \"" + s + "\"%string)"
+	}
 	var b strings.Builder
 	b.WriteString("[")
 	first := true
@@ -118,7 +133,7 @@ func CClasses(strs ...string) string {
 func HashStr(s string) string {
 	h := uint64(1469598103934665603)
 	for _, r := range s {
-		h = h*1000003 + uint64(r) + 1
+		h = h*33 + uint64(r) + 1
 	}
 	return strconv.FormatUint(h, 10)
 }
